@@ -1,8 +1,271 @@
 package minigen
 
-// NormalizeGo: placeholder until the structural printer is written.
-type Normalized struct{ funcs map[string]string }
+import (
+	"fmt"
+	"go/ast"
+	"go/parser"
+	"go/token"
+	"sort"
+	"strconv"
+	"strings"
+)
 
-func NormalizeGo(src string) *Normalized { return &Normalized{} }
+// Structural tie.  The Go text the real compiler emitted is parsed with go/parser and re-printed in
+// the canonical form of lean/GopModel/Model/MiniPrint.lean (`printProg`): binary expressions fully
+// parenthesised (source parentheses dropped), one statement per line, no indentation.  Differences
+// the model deliberately abstracts from are normalised here and nowhere else:
+//   * `errors.NewFrame(e, code, FILE, LINE, fn)`: file and line become "FILE", 0;
+//   * gogen's `goto _autoGo_n` followed by the label `_autoGo_n:` (end of an inlined `?` block) is dropped;
+//   * `_autoGo_n` numbers are per package in gogen and per program in the model: within the
+//     functions of one scenario they are shifted so that the smallest is 1.
+// Anything outside the MiniGo subset prints as `/*?<node type>*/` and breaks the comparison.
+type Normalized struct {
+	funcs map[string]*ast.FuncDecl
+	err   string
+}
 
-func (n *Normalized) Funcs(names []string) string { return "TODO" }
+func NormalizeGo(src string) *Normalized {
+	n := &Normalized{funcs: map[string]*ast.FuncDecl{}}
+	if src == "" {
+		n.err = "no compiler output"
+		return n
+	}
+	f, err := parser.ParseFile(token.NewFileSet(), "xgo_autogen.go", src, 0)
+	if err != nil {
+		n.err = "compiler output does not parse: " + err.Error()
+		return n
+	}
+	for _, d := range f.Decls {
+		if fd, ok := d.(*ast.FuncDecl); ok {
+			n.funcs[fd.Name.Name] = fd
+		}
+	}
+	return n
+}
+
+// Funcs prints the named functions (in the given order), newlines escaped as the driver does.
+func (n *Normalized) Funcs(names []string) string {
+	if n.err != "" {
+		return "NORMALIZE-ERROR " + n.err
+	}
+	// collect the _autoGo numbers used by this scenario
+	min := 0
+	for _, name := range names {
+		fd := n.funcs[name]
+		if fd == nil {
+			return "NORMALIZE-ERROR function " + name + " missing from the compiler output"
+		}
+		ast.Inspect(fd, func(x ast.Node) bool {
+			if id, ok := x.(*ast.Ident); ok && strings.HasPrefix(id.Name, "_autoGo_") {
+				if k, err := strconv.Atoi(strings.TrimPrefix(id.Name, "_autoGo_")); err == nil && (min == 0 || k < min) {
+					min = k
+				}
+			}
+			return true
+		})
+	}
+	p := &cprinter{shift: 0}
+	if min > 0 {
+		p.shift = min - 1
+	}
+	var b strings.Builder
+	for _, name := range names {
+		b.WriteString(p.funcDecl(n.funcs[name]))
+	}
+	return strings.ReplaceAll(b.String(), "\n", "\\n")
+}
+
+type cprinter struct{ shift int }
+
+func (p *cprinter) ident(s string) string {
+	if strings.HasPrefix(s, "_autoGo_") {
+		if k, err := strconv.Atoi(strings.TrimPrefix(s, "_autoGo_")); err == nil {
+			return "_autoGo_" + strconv.Itoa(k-p.shift)
+		}
+	}
+	return s
+}
+
+func (p *cprinter) typ(e ast.Expr) string {
+	switch t := e.(type) {
+	case *ast.Ident:
+		return t.Name
+	case *ast.ArrayType:
+		if t.Len == nil {
+			return "[]" + p.typ(t.Elt)
+		}
+	case *ast.MapType:
+		return "map[" + p.typ(t.Key) + "]" + p.typ(t.Value)
+	}
+	return fmt.Sprintf("/*?type %T*/", e)
+}
+
+func (p *cprinter) fields(fl *ast.FieldList) []string {
+	var out []string
+	if fl == nil {
+		return nil
+	}
+	for _, f := range fl.List {
+		if len(f.Names) == 0 {
+			out = append(out, p.typ(f.Type))
+		}
+		for _, nm := range f.Names {
+			out = append(out, nm.Name+" "+p.typ(f.Type))
+		}
+	}
+	return out
+}
+
+func results(rs []string) string {
+	if len(rs) == 0 {
+		return ""
+	}
+	return " (" + strings.Join(rs, ", ") + ")"
+}
+
+func (p *cprinter) funcDecl(fd *ast.FuncDecl) string {
+	return "func " + fd.Name.Name + "(" + strings.Join(p.fields(fd.Type.Params), ", ") + ")" +
+		results(p.fields(fd.Type.Results)) + " {\n" + p.stmts(fd.Body.List) + "}\n"
+}
+
+func (p *cprinter) exprs(es []ast.Expr) []string {
+	out := make([]string, len(es))
+	for i, e := range es {
+		out[i] = p.expr(e)
+	}
+	return out
+}
+
+func (p *cprinter) expr(e ast.Expr) string {
+	switch x := e.(type) {
+	case *ast.ParenExpr:
+		return p.expr(x.X)
+	case *ast.Ident:
+		return p.ident(x.Name)
+	case *ast.BasicLit:
+		return x.Value
+	case *ast.BinaryExpr:
+		if x.Op == token.NEQ {
+			if id, ok := x.Y.(*ast.Ident); ok && id.Name == "nil" {
+				return p.expr(x.X) + " != nil"
+			}
+		}
+		return "(" + p.expr(x.X) + " " + x.Op.String() + " " + p.expr(x.Y) + ")"
+	case *ast.UnaryExpr:
+		if x.Op == token.SUB {
+			if bl, ok := x.X.(*ast.BasicLit); ok {
+				return "-" + bl.Value
+			}
+		}
+		if x.Op == token.NOT {
+			return "!" + p.expr(x.X)
+		}
+	case *ast.CompositeLit:
+		var elts []string
+		for _, el := range x.Elts {
+			if kv, ok := el.(*ast.KeyValueExpr); ok {
+				elts = append(elts, p.expr(kv.Key)+": "+p.expr(kv.Value))
+			} else {
+				elts = append(elts, p.expr(el))
+			}
+		}
+		return p.typ(x.Type) + "{" + strings.Join(elts, ", ") + "}"
+	case *ast.IndexExpr:
+		return p.expr(x.X) + "[" + p.expr(x.Index) + "]"
+	case *ast.SelectorExpr:
+		return p.expr(x.X) + "." + x.Sel.Name
+	case *ast.CallExpr:
+		if fl, ok := x.Fun.(*ast.FuncLit); ok && len(x.Args) == 0 {
+			return "func()" + results(p.fields(fl.Type.Results)) + " {\n" + p.stmts(fl.Body.List) + "}()"
+		}
+		fn := p.expr(x.Fun)
+		args := p.exprs(x.Args)
+		if strings.HasSuffix(fn, ".NewFrame") && len(args) == 5 {
+			fn = "errors1.NewFrame" // the alias depends on what else the file imports
+			args[2], args[3] = `"FILE"`, "0"
+		}
+		ell := ""
+		if x.Ellipsis.IsValid() {
+			ell = "..."
+		}
+		return fn + "(" + strings.Join(args, ", ") + ell + ")"
+	}
+	return fmt.Sprintf("/*?expr %T*/", e)
+}
+
+func (p *cprinter) stmts(list []ast.Stmt) string {
+	var b strings.Builder
+	for i := 0; i < len(list); i++ {
+		// drop `goto L` immediately followed by `L:` + empty statement
+		if br, ok := list[i].(*ast.BranchStmt); ok && br.Tok == token.GOTO && i+1 < len(list) {
+			if ls, ok := list[i+1].(*ast.LabeledStmt); ok && ls.Label.Name == br.Label.Name {
+				if _, empty := ls.Stmt.(*ast.EmptyStmt); empty {
+					i++
+					continue
+				}
+			}
+		}
+		b.WriteString(p.stmt(list[i]))
+	}
+	return b.String()
+}
+
+func (p *cprinter) simple(s ast.Stmt) string { return strings.TrimSuffix(p.stmt(s), "\n") }
+
+func (p *cprinter) stmt(s ast.Stmt) string {
+	switch x := s.(type) {
+	case *ast.AssignStmt:
+		if x.Tok == token.DEFINE || x.Tok == token.ASSIGN {
+			return strings.Join(p.exprs(x.Lhs), ", ") + " " + x.Tok.String() + " " + strings.Join(p.exprs(x.Rhs), ", ") + "\n"
+		}
+	case *ast.DeclStmt:
+		if gd, ok := x.Decl.(*ast.GenDecl); ok && gd.Tok == token.VAR && len(gd.Specs) == 1 {
+			if vs, ok := gd.Specs[0].(*ast.ValueSpec); ok && len(vs.Names) == 1 && len(vs.Values) == 0 && vs.Type != nil {
+				return "var " + p.ident(vs.Names[0].Name) + " " + p.typ(vs.Type) + "\n"
+			}
+		}
+	case *ast.ExprStmt:
+		return p.expr(x.X) + "\n"
+	case *ast.IfStmt:
+		h := "if "
+		if x.Init != nil {
+			h += p.simple(x.Init) + "; "
+		}
+		r := h + p.expr(x.Cond) + " {\n" + p.stmts(x.Body.List) + "}"
+		switch el := x.Else.(type) {
+		case nil:
+			return r + "\n"
+		case *ast.BlockStmt:
+			return r + " else {\n" + p.stmts(el.List) + "}\n"
+		}
+	case *ast.RangeStmt:
+		if x.Tok == token.DEFINE {
+			h := "for "
+			switch {
+			case x.Key != nil && x.Value != nil:
+				h += p.expr(x.Key) + ", " + p.expr(x.Value) + " := "
+			case x.Key != nil:
+				h += p.expr(x.Key) + " := "
+			}
+			return h + "range " + p.expr(x.X) + " {\n" + p.stmts(x.Body.List) + "}\n"
+		}
+	case *ast.ReturnStmt:
+		if len(x.Results) == 0 {
+			return "return\n"
+		}
+		return "return " + strings.Join(p.exprs(x.Results), ", ") + "\n"
+	case *ast.BlockStmt:
+		return "{\n" + p.stmts(x.List) + "}\n"
+	}
+	return fmt.Sprintf("/*?stmt %T*/\n", s)
+}
+
+// SortedNames is a helper for deterministic iteration.
+func SortedNames(m map[string]string) []string {
+	ks := make([]string, 0, len(m))
+	for k := range m {
+		ks = append(ks, k)
+	}
+	sort.Strings(ks)
+	return ks
+}
